@@ -5,20 +5,55 @@ import (
 	"context"
 	"fmt"
 	"io"
+	"runtime/debug"
 	"strings"
+	"testing"
+	"testing/synctest"
+	"time"
 
 	ocispec "github.com/opencontainers/image-spec/specs-go/v1"
 	"oras.land/oras-go/v2/content"
 	"oras.land/oras-go/v2/internal/cas"
 	"verif.local/engine/driver"
-	"verif.local/engine/vs"
 )
 
 // The caching wrapper: a base that serves the scripted reader, a cas.Memory
 // cache, first fetch (cache fill) and second fetch. The proxy fills the cache
-// from a goroutine through an io.Pipe, so every case is one execution under the
-// cooperative scheduler (default schedule): a fetch that never returns shows up
-// as a deterministic deadlock verdict of the bubble, not as a timeout.
+// from a goroutine through an io.Pipe, so every case runs inside its own
+// testing/synctest bubble: virtual time only advances when every goroutine of
+// the bubble is durably blocked, so the one-hour virtual timer below fires if
+// and only if the fetch can never return - a deterministic deadlock verdict,
+// not a wall-clock timeout.
+
+// bubble runs body in a fresh bubble; hung = body is blocked for ever.
+func bubble(t *testing.T, body func()) (hung bool, panicked string) {
+	defer func() {
+		// a bubble that is left with blocked goroutines panics on exit; that is the hung case
+		if r := recover(); r != nil && !hung {
+			panicked = fmt.Sprint(r)
+		}
+	}()
+	synctest.Test(t, func(*testing.T) {
+		done := make(chan string, 1)
+		go func() {
+			defer func() {
+				if r := recover(); r != nil {
+					done <- fmt.Sprintf("%v\n%s", r, debug.Stack())
+					return
+				}
+				done <- ""
+			}()
+			body()
+		}()
+		select {
+		case p := <-done:
+			panicked = p
+		case <-time.After(time.Hour):
+			hung = true
+		}
+	})
+	return
+}
 
 type scriptBase struct {
 	k       *kase
@@ -133,19 +168,15 @@ func runProxy(c *driver.Ctx, t string, variant int, consumer string, k *kase) *f
 		probed = true
 		fetch(&r2)
 	}
-	res := vs.Run(c.T, vs.Config{}, body)
-	c.Transitions += int64(res.Steps)
-	if res.Diverged != "" || res.Livelock {
-		return failf(t+": scheduler horizon exceeded", "%s", res.Diverged)
-	}
-	for _, pn := range res.Panics {
+	hung, pn := bubble(c.T, body)
+	if pn != "" {
 		line := pn
 		if i := strings.IndexByte(line, '\n'); i > 0 {
 			line = line[:i]
 		}
 		return failf(t+": panic: "+line, "%s", pn)
 	}
-	if res.Deadlock != "" {
+	if hung {
 		phase := "first fetch (cache fill)"
 		if r1.done {
 			phase = "second fetch"
@@ -160,7 +191,7 @@ func runProxy(c *driver.Ctx, t string, variant int, consumer string, k *kase) *f
 			// a raw consumer is outside the statement: counted only
 			c.Count("note:raw-consumer-never-returns:"+t, 1)
 		} else {
-			return failf(t+": FetchAll never returns ("+why+")", "%s deadlocked: the consumer blocks writing into the cache-fill pipe that nobody reads any more\n%s", phase, res.Deadlock)
+			return failf(t+": FetchAll never returns ("+why+")", "%s: every goroutine is blocked for ever (the consumer writes into the cache-fill pipe that nobody reads any more)", phase)
 		}
 	}
 	if !probed {
